@@ -322,7 +322,15 @@ func supervise(def *PropDef, tier string, seed uint64) int {
 			if caseID, prof, log := readJournal(w.out + ".journal"); len(log) > 0 {
 				last := log[len(log)-1]
 				msg := fmt.Sprintf("the process ended (exit status: %v) inside %s call #%d (%s) of history %s; last output: %s", werr, last.Kind, last.Seq, last.Label, caseID, oneLine(tailOf(w.logf, 3)))
-				if def.ID == "C11" {
+				govCall := false
+				for _, pre := range []string{"govparam", "acl", "dao", "upgrade", "scenario:raise-minimum"} {
+					if strings.HasPrefix(last.Label, pre) || strings.HasPrefix(last.Label, "probe:"+pre) || strings.HasPrefix(last.Label, "fresh-"+pre) {
+						govCall = true
+					}
+				}
+				// C11: "the process keeps running"; C17: a governance message is either applied or rejected — the process
+				// ending inside its execution is neither
+				if def.ID == "C11" || (def.ID == "C17" && govCall && (last.Kind == "deliver" || last.Kind == "check")) {
 					rdir := filepath.Join(vd, "evidence", "replay")
 					os.MkdirAll(rdir, 0755)
 					sig := "process-exit/" + last.Kind
